@@ -78,4 +78,43 @@ theorem affineFromAttributes_uses_source (pos ori : List Rat) (ps : Spacing) (sb
             simp [h1, h2, h3, h4]
           simp only [hr, if_false, this, Bool.false_eq_true]
 
+
+/-! ## `_are_images_coplanar` calls `get_normal_vector(image_orientation_x)` only: convention and handedness are that function's defaults;
+`get_closest_patient_orientation` / `create_affine_matrix_from_components` pass their own `require_unit` to `_is_matrix_orthogonal` -/
+
+/-- `_are_images_coplanar` with the normals computed under the regenerated defaults of `get_normal_vector` -/
+def areCoplanarSrc (posA : V3) (oriA : Ori) (posB : V3) (oriB : Ori) : Except ErrKind Bool := do
+  let cv ← normConvention Gen.normalDefaultConvention
+  let na ← normalVector oriA cv Gen.normalDefaultRightHanded
+  let nb ← normalVector oriB cv Gen.normalDefaultRightHanded
+  if 1 - rabs (na.dot nb) > eqTol then pure false
+  else
+    let dist := fun (spec : Bool × Char × Char) =>
+      let d := (if spec.2.1 = 'a' then posA else posB).dot (if spec.2.2 = 'a' then na else nb)
+      if spec.1 then rabs d else d
+    pure (decide (rabs (dist Gen.coplanarDistance.1 - dist Gen.coplanarDistance.2) < eqTol))
+
+theorem areCoplanar_uses_source (posA : V3) (oriA : Ori) (posB : V3) (oriB : Ori) :
+    areCoplanar posA oriA posB oriB = areCoplanarSrc posA oriA posB oriB := by
+  have h : normConvention Gen.normalDefaultConvention = .ok ('R', 'D') := by decide
+  simp only [areCoplanar, areCoplanarSrc, h, Gen.normalDefaultRightHanded, bind, Except.bind]
+
+/-- `get_closest_patient_orientation` with the `require_unit` it passes (none = the regenerated default of `_is_matrix_orthogonal`) -/
+def closestOrientationSrc (m : M3) : Except ErrKind (List Char) :=
+  if !isOrthogonal m (Gen.closestRequireUnit.getD Gen.orthogonalDefaultRequireUnit) then .error .value
+  else do
+    let i0 := chooseAxis m.c0 []
+    let i1 := chooseAxis m.c1 [i0]
+    let i2 := chooseAxis m.c2 [i0, i1]
+    let l0 ← letterFor m.c0 i0
+    let l1 ← letterFor m.c1 i1
+    let l2 ← letterFor m.c2 i2
+    pure [l0, l1, l2]
+
+theorem closestOrientation_uses_source (m : M3) : closestOrientation m = closestOrientationSrc m := rfl
+
+/-- the direction matrix of `create_affine_matrix_from_components` is tested WITH `require_unit` (the flag the model's
+`affineFromComponents` hard-codes) -/
+theorem components_require_unit : Gen.componentsRequireUnit.getD Gen.orthogonalDefaultRequireUnit = true := rfl
+
 end HdVerif.Affine
